@@ -458,3 +458,11 @@ def const_map(v):
     from replay.stubs import GhostMap
 
     return GhostMap((), v)
+
+
+def ambient_reads():
+    return 0
+
+
+def seed_of(rng):
+    return getattr(rng, "_pyvc_seed", None)
